@@ -629,7 +629,15 @@ _f32v = st.one_of(st.floats(width=32, allow_nan=False), st.sampled_from([0.0, -0
 
 @st.composite
 def writeonly_strategy(draw):
-    kind = draw(st.sampled_from(['poly4d', 'ledtimings']))
+    kind = draw(st.sampled_from(['poly4d', 'ledtimings', 'compressed']))
+    if kind == 'compressed':
+        coord = st.one_of(st.floats(-30, 30, allow_nan=False), st.sampled_from([0.0, 1.0, -1.5, 32.0, -32.0]))
+        yaw = st.floats(-3.1, 3.1, allow_nan=False)
+        nel = st.sampled_from([0, 1, 3, 7])
+        segs = [{'duration': draw(st.floats(0.001, 60, allow_nan=False)),
+                 'elements': [draw(st.lists(coord, min_size=k, max_size=k)) for k in (draw(nel), draw(nel), draw(nel))] + [draw(st.lists(yaw, min_size=k2, max_size=k2)) for k2 in (draw(nel),)]}
+                for _ in range(draw(st.integers(0, 4)))]
+        return {'kind': kind, 'startpt': [draw(coord), draw(coord), draw(coord), draw(yaw)], 'segments': segs, 'start': draw(st.sampled_from([0, 0, 50, 1000]))}
     if kind == 'poly4d':
         n = draw(st.integers(1, 4))
         pieces = [{'duration': draw(_f32v), 'polys': [[draw(_f32v) for _ in range(8)] for _ in range(4)]} for _ in range(n)]
@@ -671,6 +679,41 @@ def run_writeonly(case):
                 out.fail('poly4d:layout', 'piece %d: memory %r wrote %r' % (k, vals, flat))
         if any(b != 0xAA for b in img[:case['start']]) or any(b != 0xAA for b in img[case['start'] + 132 * len(pieces):]):
             out.fail('poly4d:writes-elsewhere', '')
+        # the same trajectory objects written once more into a second slot: the same image there
+        second = case['start'] + 132 * len(pieces) + 4
+        first_img = bytes(img[case['start']:case['start'] + 132 * len(pieces)])
+        done2 = []
+        m.write_data(lambda *a: done2.append(a), start_addr=second)
+        cf.pump()
+        if len(done2) != 1 or bytes(dev.mems[0].data[second:second + 132 * len(pieces)]) != first_img:
+            out.fail('poly4d:second-write-differs', '%d pieces written again at %d: callbacks %d' % (len(pieces), second, len(done2)))
+    elif case['kind'] == 'compressed':
+        from cflib.crazyflie.mem.trajectory_memory import CompressedSegment, CompressedStart
+
+        def build():
+            st0 = case['startpt']
+            return [CompressedStart(st0[0], st0[1], st0[2], st0[3])] + [CompressedSegment(sg['duration'], *sg['elements']) for sg in case['segments']]
+        out.nontrivial = len(case['segments']) >= 1
+        out.feat('compressed-%d' % min(len(case['segments']), 3))
+        cf, dev, mem, ok = make_memory([MemSpec(0x12, 4096, fill=0xAA)])
+        m = mem.mems[0]
+        # reference image: every element packed on its own from a fresh object (the per-element layout is C13's business)
+        ref = b''.join(bytes(e.pack()) for e in build())
+        m.trajectory = build()
+        slots = [case['start'], case['start'] + len(ref) + 6, case['start'] + 2 * len(ref) + 20]
+        for si, addr in enumerate(slots):
+            done = []
+            n = m.write_data(lambda *a: done.append(a), start_addr=addr)
+            cf.pump()
+            got = bytes(dev.mems[0].data[addr:addr + len(ref)])
+            if len(done) != 1 or n != len(ref) or got != ref:
+                out.fail('compressed:write-%d-differs' % min(si, 1), 'start %r segments %r: write number %d of the same trajectory objects at %d returned %r, memory holds %s, '
+                         'elements encode to %s' % (case['startpt'], case['segments'], si + 1, addr, n, got.hex(), ref.hex()))
+                break
+        img = dev.mems[0].data
+        used = [(a, a + len(ref)) for a in slots]
+        if any(b != 0xAA for i_, b in enumerate(img) if not any(lo <= i_ < hi for lo, hi in used)):
+            out.fail('compressed:writes-elsewhere', '')
     else:
         timings = case['timings']
         out.nontrivial = len(timings) >= 2
